@@ -9,7 +9,10 @@ import (
 	"log"
 	"math"
 	"strconv"
+	"strings"
 
+	"google.golang.org/protobuf/proto"
+	"google.golang.org/protobuf/types/known/wrapperspb"
 	"qchen.fun/fatchoy"
 	"qchen.fun/fatchoy/codec"
 	"qchen.fun/fatchoy/packet"
@@ -75,8 +78,64 @@ func goValue(g Sx) interface{} {
 		return g.At(1).AsString()
 	case 6:
 		return append([]byte{}, g.At(1).AsBytes()...)
+	case 7:
+		return protoValue(g.At(1).AsInt(), g.At(2).AsBytes())
 	}
 	panic("bad gov")
+}
+
+// registered message ids (packet.VerifRegister, build tag verif)
+const (
+	idString  = 201 // wrapperspb.StringValue
+	idInt64   = 202 // wrapperspb.Int64Value
+	idPingReq = 300 // main.PingReq, paired with
+	idPingAck = 301 // main.PingAck
+)
+
+// named only so that the registry sees a ...Req / ...Ack pair; never unmarshalled into
+type PingReq struct{ *wrapperspb.StringValue }
+type PingAck struct{ *wrapperspb.StringValue }
+
+func init() {
+	packet.VerifRegister(idString, &wrapperspb.StringValue{})
+	packet.VerifRegister(idInt64, &wrapperspb.Int64Value{})
+	packet.VerifRegister(idPingReq, &PingReq{&wrapperspb.StringValue{}})
+	packet.VerifRegister(idPingAck, &PingAck{&wrapperspb.StringValue{}})
+}
+
+// a stock message: 0 StringValue(payload) 1 Int64Value(LE64 of payload) 2 BytesValue(payload, unregistered)
+func protoValue(kind int, payload []byte) proto.Message {
+	switch kind {
+	case 0:
+		return wrapperspb.String(strings.ToValidUTF8(string(payload), "?"))
+	case 1:
+		var b [8]byte
+		copy(b[:], payload)
+		return wrapperspb.Int64(int64(binary.LittleEndian.Uint64(b[:])))
+	}
+	return wrapperspb.Bytes(append([]byte{}, payload...))
+}
+
+func protoID(kind int) int32 {
+	switch kind {
+	case 0:
+		return idString
+	case 1:
+		return idInt64
+	}
+	return 0
+}
+
+func mustMarshal(m proto.Message) []byte {
+	b, err := proto.Marshal(m)
+	if err != nil {
+		panic(err)
+	}
+	return b
+}
+
+func protoGov(kind int, payload []byte) Sx {
+	return List(Int(7), Int(int64(kind)), Bytes(payload), Bytes(mustMarshal(protoValue(kind, payload))))
 }
 
 func bodySx(b interface{}) Sx {
@@ -91,6 +150,10 @@ func bodySx(b interface{}) Sx {
 		return List(Int(3), Str(v))
 	case []byte:
 		return List(Int(4), Bytes(v))
+	case proto.Message:
+		if m, err := proto.Marshal(v); err == nil {
+			return List(Int(5), Bytes(m))
+		}
 	}
 	return Ints(9)
 }
@@ -247,8 +310,10 @@ func run(in Sx) Sx {
 				p.ReplyWith(command, bodyValue(arg))
 			case 1:
 				p.RefuseWith(command, int32(arg.Int64()))
-			default:
+			case 2:
 				p.Refuse(int32(arg.Int64()))
+			default:
+				p.Reply(goValue(arg).(proto.Message))
 			}
 		})
 		if pn || len(e1.sent) == 0 {
@@ -256,6 +321,35 @@ func run(in Sx) Sx {
 		}
 		q := e1.sent[len(e1.sent)-1]
 		return List(Int(1), Int(int64(len(e1.sent))), hdrOfPkt(q).sx(), bodySx(q.Body()), Int(int64(q.Errno())))
+	case 5:
+		var enc codec.Encoder
+		if in.At(1).AsInt() == 1 {
+			enc = codec.NewV1Encoder(0)
+		} else {
+			enc = codec.NewV2Encoder(0)
+		}
+		p := hdrOf(in.At(2)).packet()
+		p.SetBody(goValue(in.At(3)))
+		var buf bytes.Buffer
+		q := packet.Make()
+		ok := false
+		pn, _ := Catch(func() {
+			if _, err := enc.WritePacket(&buf, nil, p); err != nil {
+				return
+			}
+			if err := enc.ReadPacket(&buf, nil, q); err != nil {
+				return
+			}
+			ok = true
+		})
+		if pn || !ok {
+			return List(Int(0))
+		}
+		var derr error
+		if pn, _ := Catch(func() { derr = q.Decode() }); pn {
+			return List(Int(1), Int(2), bodySx(q.Body()))
+		}
+		return List(Int(1), Bool(derr == nil), bodySx(q.Body()))
 	}
 	panic("bad scenario")
 }
@@ -468,8 +562,24 @@ func gen(a Args, out *Out) {
 			return "float"
 		case 5:
 			return "text"
+		case 7:
+			return "proto"
 		}
 		return "bytes"
+	}
+	genProto := func() Sx {
+		k := rng.Intn(3)
+		out.Count("gov:proto" + strconv.Itoa(k))
+		switch rng.Intn(4) {
+		case 0:
+			return protoGov(k, nil) // the zero message: empty wire form
+		case 1:
+			return protoGov(k, []byte(texts[rng.Intn(len(texts))]))
+		}
+		return protoGov(k, rng.Bytes(rng.Intn(24)))
+	}
+	for i := 0; i < 40*scale; i++ {
+		emit("body-proto", List(Int(0), genProto()))
 	}
 	for i := 0; i < 900*scale; i++ {
 		g := genGov(rng, out)
@@ -495,6 +605,9 @@ func gen(a Args, out *Out) {
 			emit("wire-errno", List(Int(3), Int(int64(cd)), Int(int64(thr)), Bool(encb), h.sx(), List(Int(0), Int(genErrno(rng)))))
 		} else {
 			g := genGov(rng, out)
+			if rng.Chance(1, 8) {
+				g = genProto()
+			}
 			emit("wire-"+kindOf(g), List(Int(3), Int(int64(cd)), Int(int64(thr)), Bool(encb), h.sx(), List(Int(1), g)))
 		}
 	}
@@ -505,7 +618,14 @@ func gen(a Args, out *Out) {
 		if rng.Bool() {
 			command = rng.PickI64(0, 1, 77, -1, math.MaxInt32)
 		}
-		switch rng.Intn(3) {
+		if rng.Chance(1, 3) {
+			h.cmd = int32(rng.PickI64(idPingReq, idPingAck, idString, idInt64))
+		}
+		switch rng.Intn(4) {
+		case 3:
+			g := genProto()
+			mid := packet.GetMessageIDOf(goValue(g).(proto.Message))
+			emit("reply-proto", List(Int(4), h.sx(), Int(3), Int(int64(mid)), g))
 		case 0:
 			var b Sx
 			switch rng.Intn(5) {
@@ -524,7 +644,103 @@ func gen(a Args, out *Out) {
 		case 1:
 			emit("refuse-with", List(Int(4), h.sx(), Int(1), Int(command), Int(genErrno(rng))))
 		default:
-			emit("refuse", List(Int(4), h.sx(), Int(2), Int(0), Int(genErrno(rng))))
+			emit("refuse", List(Int(4), h.sx(), Int(2), Int(int64(packet.GetPairingAckID(h.cmd))), Int(genErrno(rng))))
 		}
+	}
+	// scenario 5: a message crosses the wire and is decoded by its registered id
+	for i := 0; i < 120*scale; i++ {
+		h := genHdr(rng, true)
+		h.cmd = int32(rng.PickI64(idString, idInt64, 999))
+		if rng.Chance(3, 4) {
+			h.flg &^= uint8(fatchoy.PFlagError)
+		}
+		var g Sx
+		switch rng.Intn(4) {
+		case 0:
+			g = genGov(rng, out)
+		case 1:
+			g = genProto()
+		default: // the type registered under the command
+			k := 0
+			if h.cmd == idInt64 {
+				k = 1
+			}
+			g = protoGov(k, rng.Bytes(rng.Intn(12)))
+		}
+		// the oracles: is a type registered under the command, does it accept the payload
+		p := h.packet()
+		p.SetBody(goValue(g))
+		w := append([]byte{}, p.BodyToBytes()...)
+		if h.flg&uint8(fatchoy.PFlagError) != 0 && len(w) > 0 {
+			x, _ := binary.Varint(w)
+			var tmp [binary.MaxVarintLen64]byte
+			w = tmp[:binary.PutVarint(tmp[:], x)]
+		}
+		registered := packet.GetMessageNameByID(h.cmd) != ""
+		valid := false
+		if msg := packet.CreateMessageByID(h.cmd); msg != nil {
+			valid = proto.Unmarshal(w, msg) == nil
+		}
+		emit("decode-"+kindOf(g), List(Int(5), Int(int64(1+rng.Intn(2))), h.sx(), g, Bool(registered), Bool(valid)))
+	}
+	// volume: the numeric wire/text forms and the error-code path evaluated directly in Go
+	nvol := 30000
+	if a.Thorough() {
+		nvol = 1000000
+	}
+	vr := rng.Fork()
+	catchViol := func(sig, what string, in Sx, f func() bool) {
+		out.GoChecked++
+		ok := false
+		if pn, _ := Catch(func() { ok = f() }); pn || !ok {
+			out.Violation(sig, what, List(in, List()))
+		}
+	}
+	for i := 0; i < nvol; i++ {
+		v := int64(vr.Next()) >> uint(vr.Intn(64))
+		if i < 256 {
+			v = int64(1)<<uint(i%64) - int64(i/64) // powers of two and their neighbours: varint length changes
+			if i >= 128 {
+				v = -v
+			}
+		}
+		catchViol("C07/go/int-forms", "integer body: varint or decimal text does not give the value back", List(Int(0), List(Int(1), Int(iI64), Int(v))), func() bool {
+			p := packet.Make()
+			p.SetBody(v)
+			w := p.BodyToBytes()
+			x, n := binary.Varint(w)
+			t, err := strconv.ParseInt(p.BodyToString(), 10, 64)
+			return n == len(w) && x == v && err == nil && t == v && p.BodyToInt() == v
+		})
+		bits := vr.Next()
+		catchViol("C07/go/float-forms", "float body: uvarint of the bits or the text does not give the value back", List(Int(0), List(Int(4), Uint(bits))), func() bool {
+			p := packet.Make()
+			f := math.Float64frombits(bits)
+			p.SetBody(f)
+			w := p.BodyToBytes()
+			x, n := binary.Uvarint(w)
+			t, err := strconv.ParseFloat(p.BodyToString(), 64)
+			return n == len(w) && x == bits && math.Float64bits(p.BodyToFloat()) == bits && err == nil && (t == f || f != f && t != t)
+		})
+	}
+	encs := []codec.Encoder{codec.NewV1Encoder(0), codec.NewV2Encoder(0)}
+	for i := 0; i < nvol/10; i++ {
+		ec := int32(vr.Next())
+		cd := i % 2
+		h := hdr{cmd: int32(vr.Next()), seq: uint16(vr.Next()), flg: uint8(vr.Next()) &^ 3}
+		in := List(Int(3), Int(int64(cd+1)), Int(int64(4096*(cd+1))), Bool(false), h.sx(), List(Int(0), Int(int64(ec))))
+		catchViol("C07/go/errno-wire", "the error code read after the wire is not the code placed on the packet", in, func() bool {
+			p := h.packet()
+			p.SetErrno(ec)
+			var buf bytes.Buffer
+			q := packet.Make()
+			if _, err := encs[cd].WritePacket(&buf, nil, p); err != nil {
+				return false
+			}
+			if err := encs[cd].ReadPacket(&buf, nil, q); err != nil {
+				return false
+			}
+			return p.Errno() == ec && q.Errno() == ec
+		})
 	}
 }
